@@ -7,7 +7,7 @@ from hypothesis import strategies as st
 from .. import qrref as R
 from .. import colors, raster
 from ..common import call, Refused, Crash, dec_content, enc_content
-from ..runner import Dev, Outcome, Enum, Search
+from ..runner import HarnessError, Dev, Outcome, Enum, Search
 
 PROPERTY = 'C09'
 LEVEL = 'exploration'
@@ -185,6 +185,8 @@ def check_case(case):
             extra = rows[size:]
             if rows[:size] != grid or len(extra) != size % 2 or any(any(v != 1 for v in r) for r in extra):
                 devs.append(Dev('C09/cells-compact', 'compact grid differs (%d half rows for %d rows)' % (len(rows), size)))
+    except raster.Unsupported as ex:
+        raise HarnessError('reader limitation (%s): %s' % (kind, ex))
     except raster.FormatError as ex:
         devs.append(Dev('C09/malformed-' + kind, str(ex)))
     nontrivial = s > 1 or border is not None or dark_spec != 'DEFAULT' or light_spec != 'DEFAULT'
